@@ -159,13 +159,14 @@ void exec_logfmt(const Plan &p, RunOut *out) {
           ds = off; de = std::min(N, (off / ref::LOG_BLOCK + 1) * ref::LOG_BLOCK);
           for (size_t q = ds; q < de; q++) d[q] = 0;
           kname = "zeros to end of block";
-        } else
+        } else {
         switch (kind) {
           case 0: d[off] = (char)(d[off] ^ (1 << r.below(8))); kname = "bit flip"; break;
           case 1: d[off] = 0; kname = "byte=0x00"; break;
           case 2: d[off] = (char)0xFF; kname = "byte=0xFF"; break;
           case 3: { size_t n = (size_t)r.range(2, 8); de = std::min(N, off + n); for (size_t q = off; q < de; q++) d[q] = (char)r.below(256); kname = "multi-byte"; break; }
           default: { ds = off - off % 512; de = std::min(N, ds + 512); for (size_t q = ds; q < de; q++) d[q] = 0; kname = "zeroed sector"; break; }
+        }
         }
         if (d == expect) continue;
         while (ds < de && d[ds] == expect[ds]) ds++;
